@@ -10,6 +10,7 @@ ASSUMPTIONS = ["box extents independent integers in [6,48]; centre any voxel of 
                "algebra: 1..3 masks given as arbitrary {0,1}-valued (binary) or [0,1]-valued (soft) voxel functions of a common symbolic shape"]
 OUTSIDE = ["'blurred outwards leaves the core at 1 within 1e-3' and the Gaussian edge profile (numerics of skimage.filters.gaussian)",
            "ellipsoid: box shapes are an enumerated family of even shapes (reshape(3,-1) needs concrete extents); centre, radii, voxel stay symbolic"]
+WITNESS_ONLY = ["'blurred outwards leaves the core at 1 within 1e-3' (core_at_1_within_1e-3): evaluated with the real skimage only on the concrete witness input of each path; not counted as discharged"]
 BOUNDS = {"quick": {"box": "6..48 per axis symbolic", "ellipsoid_shapes": 3}, "thorough": {"box": "6..48 per axis symbolic", "ellipsoid_shapes": 12}}
 EXPECTED_EXCEPTIONS = ()
 OPTS = {"qtimeout": 30.0}
